@@ -3,7 +3,7 @@
 TLC: Funnel.tla - (1) EscapesOnlyIDE / RawNeverLaundered over every (exception class, raise site): what escapes the
 layered handlers is an InvalidDefinitionError with a path exactly for origins of the InvalidDefinition family, so the
 property is an obligation on every raise site; (2) the mutation machine enumerates every single (and, sampled, double)
-token mutation - delete, duplicate, swap, replace by any of 110 vocabulary entries - of three seed definitions.
+token mutation - delete, duplicate, swap, replace by any of 111 vocabulary entries - of three seed definitions.
 Binding A: every mutated text is read; the outcome must be a model or an InvalidDefinitionError whose path is the
 mutated file (or a dependency).  Seeded character noise, control characters, file-name shapes and duplicate
 name+version files are added by the harness.
@@ -123,14 +123,15 @@ def read_text(text, extra_files=None, want_trace=False):
     if unbounded(text if isinstance(text, str) else text.decode("utf8", "replace")):
         return ("skipped", None, None) if want_trace else ("skipped", None)
     files = dict(fs.DEP_FILES)
+    files.update(fs.LOOKUP_FILES)
     files["ns/A.1.0.dsdl"] = text
     files.update(extra_files or {})
     with dsdlio.Tree(files, "c13") as tr:
         if not want_trace:
-            return dsdlio.read_ns(tr.path("ns"))[:2]
+            return dsdlio.read_ns(tr.path("ns"), [tr.path("lk/dep2")])[:2]
         from pydsdl import _verif_trace
         _verif_trace.drain()
-        status, res, _ = dsdlio.read_ns(tr.path("ns"))
+        status, res, _ = dsdlio.read_ns(tr.path("ns"), [tr.path("lk/dep2")])
         rec = funnel_record(_verif_trace.drain(), res) if status == "err" else None
         return status, res, rec
 
@@ -147,6 +148,12 @@ def worker(arg):
     text = join(toks)
     status, res, frec = read_text(text, want_trace=True)
     bad = classify(status, res, "A.1.0.dsdl")
+    if not bad and status == "err" and fs.BAD_DEP in toks:
+        # the mutation refers to a dependency that is itself faulty: if the same text with a sound dependency in its place is
+        # accepted, the dependency's file is the offending one and the error must name it
+        status2, _res2 = read_text(join([("ns.Dep.1.0" if t_ == fs.BAD_DEP else t_) for t_ in toks]))
+        if status2 == "ok" and not str(res.path).endswith("Bad.1.0.dsdl"):
+            bad = (("the error does not name the offending file (the faulty dependency)", str(res.path)[-40:], type(res).__name__), None)
     r = {"nt": status == "err", "key": core.jhash(tlaval.to_json(c)), "skipped": status == "skipped", "funnel": frec, "text": text}
     if bad:
         r["bad"] = {"kind": "mutation", "case": tlaval.to_json(c), "text": text, "diff": [bad[0]]}
@@ -314,9 +321,9 @@ def run_mut(ctx, cfg, mod, collect):
     c02.consume(ctx, collect(core.pmap(worker, [(b, mod) for b in blocks], chunksize=100)), cfg)
 
 def run(ctx):
-    assert [len(s) for s in fs.SEEDS] == [40, 35, 29] and len(fs.VOCAB) == 110, "spec/MC_Funnel.tla and Funnel.tla mirror these numbers"
+    assert [len(s) for s in fs.SEEDS] == [40, 35, 29] and len(fs.VOCAB) == 111, "spec/MC_Funnel.tla and Funnel.tla mirror these numbers"
     ctx.rule = ("TLC checks the propagation model over every (class, raise site) and enumerates every single token mutation "
-                "(delete / duplicate / swap / replace by each of 110 vocabulary entries incl. every operator, bracket, "
+                "(delete / duplicate / swap / replace by each of 111 vocabulary entries incl. every operator, bracket, "
                 "directive, literal form and targeted corner expression) of three seed definitions, and (sampled) double "
                 "mutations; each text is read: model or InvalidDefinitionError with a path. Every state of Expr.tla's operator x operand-kind grid "
                 "(17 binary, 3 unary, 4 attribute operators x 20 operand kinds incl. data types and sets of sets / types) is "
